@@ -123,6 +123,38 @@ def make_short_name(path, long_name):
     return "sdai_" + filename
 
 
+_BUILD = [None]
+
+
+def schemas_needing_a_circle(exp_path):
+    """names of the schemas of the file from which a circle of "takes an enumeration / select / supertype / original from" is
+    reachable (read off the parser's resolved model: the foreign objects the pass logic looks at); None if unavailable"""
+    b = _BUILD[0]
+    if b is None:
+        return None
+    try:
+        po = G.pass_objects_from_dump(b, exp_path)
+    except Exception:
+        return None
+    if po is None:
+        return None
+    dep = {sn: set() for sn, _ in po}
+    for sn, ls in po:
+        for l in ls:
+            w = l.split()
+            if w[1] == "S":
+                dep[sn].add(w[3].split(".", 1)[0])
+    def reach(a):
+        seen, todo = set(), list(dep.get(a, ()))
+        while todo:
+            x = todo.pop()
+            if x not in seen:
+                seen.add(x); todo += list(dep.get(x, ()))
+        return seen
+    on_circle = {a for a in dep if a in reach(a)}
+    return {a for a in dep if a in on_circle or reach(a) & on_circle}
+
+
 # ---------------------------------------------------------------- the property oracle
 def oracle(case, res, names):
     """-> None or [(key, what), …].  Evaluates C17's statement on what the two real programs did."""
@@ -214,7 +246,14 @@ def oracle(case, res, names):
             # multi-schema file that has an interface clause (it may depend on enum/select/supertypes of another schema)
             decls = dict(case.ast or []).get(n, [])
             may_depend = len(names) > 1 and any(l.startswith(("ent ", "type ")) and l.endswith(" 1") for l in decls)
-            if may_depend:
+            # since fix C17-5 (a partially printable schema is deferred) only schemas that need EACH OTHER - or need such
+            # schemas - may still be split: decided from the dependency graph of the file's schemas as the parser resolved it
+            mutual = schemas_needing_a_circle(res["exp"])
+            if may_depend and mutual is not None and n not in mutual:
+                found.append(("multipass-in-acyclic-file",
+                              f"schema {n} takes objects only from schemas that do not need it back (no circle among the schemas it depends on), "
+                              f"yet exp2cxx printed it in several files {sorted(suf)[:4]}…; the scanner lists {sorted(base)[:4]}… which are never created"))
+            elif may_depend:
                 found.append(("multipass-suffix", f"exp2cxx printed schema {n} in several passes and named its files {sorted(suf)[:4]}…, "
                                                   f"the scanner lists {sorted(base)[:4]}… which are never created"))
             else:
@@ -546,6 +585,42 @@ def renamed_in_select_cases(ctx, n):
     return out
 
 
+def schema_order_cases(ctx, quick):
+    """multi-schema files in which the ORDER the dictionary delivers the schemas matters: a schema that takes an enumeration and a
+    supertype from another one and has objects of its own to print, under many pairs of schema names (so that the user comes
+    first in the dictionary for some, the supplier for others), chains of three, schemas that need each other; and files NAMED
+    after one of their schemas - each of them in turn, so that it is the first in dictionary order for some and not for others."""
+    r = ctx.rng
+    words = ["alpha", "beta", "gamma", "delta", "geometry", "appearance", "topology", "styling", "m1", "m2", "parts", "colours", "zz_user",
+             "aa_supplier", "aa_user", "zz_supplier", "kernel", "shell", "base_s", "derived_s", "s1", "s2", "s3", "x_schema", "y_schema"]
+    out = []
+    def ast_of(names_decls):
+        return [(n, [f"{k} {d} 1" if k == "ent" else f"type {d} enumeration_ 0 1" for k, d in ds]) for n, ds in names_decls]
+    for i in range(8 if quick else 60):
+        u, sup, third = r.sample(words, 3)
+        user = (f"SCHEMA {u};\nREFERENCE FROM {sup} (colour_{i}, base_part_{i});\nTYPE size_{i} = ENUMERATION OF (small, large);\nEND_TYPE;\n"
+                f"ENTITY widget_{i};\n  s : size_{i};\nEND_ENTITY;\nENTITY painted_{i} SUBTYPE OF (base_part_{i});\n  c : colour_{i};\nEND_ENTITY;\nEND_SCHEMA;\n")
+        supplier = (f"SCHEMA {sup};\nTYPE colour_{i} = ENUMERATION OF (red, green);\nEND_TYPE;\nENTITY base_part_{i};\n  id : STRING;\nEND_ENTITY;\nEND_SCHEMA;\n")
+        text = (user + supplier) if i % 2 == 0 else (supplier + user)
+        ast = ast_of([(u, [("type", f"size_{i}"), ("ent", f"widget_{i}"), ("ent", f"painted_{i}")]), (sup, [("type", f"colour_{i}"), ("ent", f"base_part_{i}")])])
+        if i % 2:
+            ast.reverse()
+        out.append(Case(f"schema-order:user-{u}-supplier-{sup}", text, "a_file_name_longer_than_any_of_the_schema_names_in_it", ast=ast))
+        if i % 3 == 0:      # a chain of three: third <- u <- sup
+            top = (f"SCHEMA {third};\nREFERENCE FROM {u} (painted_{i});\nENTITY top_{i} SUBTYPE OF (painted_{i});\nEND_ENTITY;\nENTITY top_alone_{i};\nEND_ENTITY;\nEND_SCHEMA;\n")
+            out.append(Case(f"schema-order:chain-{third}-{u}-{sup}", top + user + supplier, "a_file_name_longer_than_any_of_the_schema_names_in_it",
+                            ast=ast_of([(third, [("ent", f"top_{i}"), ("ent", f"top_alone_{i}")]), (u, [("type", f"size_{i}"), ("ent", f"widget_{i}"), ("ent", f"painted_{i}")]),
+                                        (sup, [("type", f"colour_{i}"), ("ent", f"base_part_{i}")])])))
+        # two INDEPENDENT schemas in a file named after each of them in turn (and after neither)
+        a, bb = r.sample(words, 2)
+        two = (f"SCHEMA {a};\nTYPE axis_{i} = ENUMERATION OF (x, y, z);\nEND_TYPE;\nENTITY point_{i};\n  along : axis_{i};\nEND_ENTITY;\nEND_SCHEMA;\n"
+               f"SCHEMA {bb};\nENTITY coating_{i};\n  name : STRING;\nEND_ENTITY;\nEND_SCHEMA;\n")
+        ast2 = [(a, [f"type axis_{i} enumeration_ 0 0", f"ent point_{i} 0"]), (bb, [f"ent coating_{i} 0"])]
+        for stem in (a, bb):
+            out.append(Case(f"file-named-after-schema:{stem}-of-{a}+{bb}", two, stem, r.choice(["", "data/" + stem, "some/dir"]), ast=ast2))
+    return out
+
+
 def inverse_cases(ctx, n):
     """INVERSE attributes as a dimension: where the inverted attribute comes from for the entity the clause names — declared by it /
     inherited through its first supertype / through its 2nd or 3rd supertype / from two levels up a later supertype — under many
@@ -720,7 +795,8 @@ def examine(ctx, b, case, model_exe, idx):
                                                           "type-only" if case.name.startswith("type-only") else
                                                           "select-nesting" if case.name.startswith("select-") else
                                                           "long-identifier" if case.name.startswith("long-identifier") else
-                                                          "inverse-attributes" if case.name.startswith("inverse-") else "fixed"))
+                                                          "inverse-attributes" if case.name.startswith("inverse-") else
+                                                          "schema-order" if case.name.startswith(("schema-order", "file-named")) else "fixed"))
     ctx.hist("schemas-per-file", str(min(len(names), 4)) + ("+" if len(names) >= 4 else ""))
     if case.gen is not None:
         for ft in case.gen.features():
@@ -774,6 +850,7 @@ def run(ctx):
     ]
     ctx.lean("StepModel.Props.C17", exes=["m_c17"], extractors=["scanner", "exphash", "cxxpass", "cxxcollect", "cxxmarks"])
     b = ctx.build("plain")
+    _BUILD[0] = b
     model_exe = ctx.model_exe("m_c17")
     if not os.path.exists(model_exe):
         return
@@ -788,6 +865,7 @@ def run(ctx):
     cases += select_nesting_cases(ctx, quick)
     cases += renamed_in_select_cases(ctx, 40 if quick else 400)
     cases += inverse_cases(ctx, 40 if quick else 400)
+    cases += schema_order_cases(ctx, quick)
     cases += generated_cases(ctx, 40 if quick else 300)
     cases += shipped_cases(b, quick)
     t0 = time.time()
@@ -817,6 +895,7 @@ def replay(ctx, path):
     ctx._disagree = []
     ctx.lean("StepModel.Props.C17", exes=["m_c17"], extractors=["scanner", "exphash", "cxxpass", "cxxcollect", "cxxmarks"])
     b = ctx.build("plain")
+    _BUILD[0] = b
     fn = r["file_name"]
     if r["express"].startswith("<shipped file"):
         c = Case("replay", None, exp_path=fn)
